@@ -12,6 +12,7 @@ MISC = "androguard/misc.py"
 RESERVED = [ord(c) for c in '<>:"/\\|?*']
 MAXLEN = 230
 META = {
+    "technique": 'contract-based deductive verification: symbolic execution of the real functions against sidecar contracts (z3/cvc5) for the proved units; bounded contract evaluation (enumerated scope / independent writer) for the rest',
     "level": "other",
     "partial": True,
     "level_text": "Proof (all contents, bounded length): clean_file_name is executed on paths of 1..6 symbolic code points (any "
